@@ -328,21 +328,24 @@ static Val cmp_matrix_impl(const vec_basic &v, const std::string &idx)
     return Val::J(o);
 }
 // sharing statistics of an expression DAG: nodes visited (tree size), distinct pointers, distinct classes under eq
-static void walk_share(const RCP<const Basic> &b, std::unordered_set<const Basic *> &ptrs, set_basic &classes, long &total, int depth)
+static void walk_share(const RCP<const Basic> &b, std::unordered_set<const Basic *> &ptrs, set_basic &classes, long &total, int depth,
+                       std::vector<RCP<const Basic>> &keep)
 {
     total++;
     if (depth > 2000) return;
     if (ptrs.insert(b.get()).second) {
+        keep.push_back(b);      // get_args() of sums and products returns temporaries: their addresses must not be reused during the walk
         classes.insert(b);
-        for (const auto &a : b->get_args()) walk_share(a, ptrs, classes, total, depth + 1);
+        for (const auto &a : b->get_args()) walk_share(a, ptrs, classes, total, depth + 1, keep);
     }
 }
 SXOP(sharing)
 {
     std::unordered_set<const Basic *> ptrs;
     set_basic classes;
+    std::vector<RCP<const Basic>> keep;
     long total = 0;
-    walk_share(c.B(e, 1), ptrs, classes, total, 0);
+    walk_share(c.B(e, 1), ptrs, classes, total, 0, keep);
     return Val::J("{\"visits\":" + std::to_string(total) + ",\"ptrs\":" + std::to_string(ptrs.size()) + ",\"classes\":" + std::to_string(classes.size()) + "}");
 }
 
